@@ -181,8 +181,12 @@ func (env *Env) resolveType(e ast.Expr) types.Type {
 	case *ast.StarExpr:
 		return types.NewPointer(env.resolveType(e.X))
 	case *ast.SelectorExpr:
-		if id, ok := e.X.(*ast.Ident); ok && env.pkg != nil {
-			for _, imp := range env.pkg.Imports() {
+		if id, ok := e.X.(*ast.Ident); ok {
+			var imps []*types.Package
+			if env.pkg != nil {
+				imps = env.pkg.Imports()
+			}
+			for _, imp := range imps {
 				// by declared package name, or by the last element of the import path (the usual local alias of
 				// generated packages whose declared name differs, e.g. sdcpb)
 				if imp.Name() == id.Name || pathBase(imp.Path()) == id.Name {
